@@ -845,6 +845,13 @@ func (t *Table) Update(input *types.UpdateItemInput) (map[string]*types.Item, er
 		}
 	}
 
+	if t.UseNativeInterpreter {
+		// ... and an update no updater is registered for is unsupported, whatever the condition says
+		if err := t.NativeInterpreter.CheckUpdater(t.Name, input.UpdateExpression); err != nil {
+			return nil, err
+		}
+	}
+
 	// support conditional writes
 	if err := checkConditionNotBlank(input.ConditionExpression); err != nil {
 		return nil, err
